@@ -60,6 +60,8 @@ pub struct Pres {
 	pub bytes_as_seq: bool,
 	/// durations as: 0 struct, 1 tuple, 2 raw bytes, 3 map
 	pub duration_as: u8,
+	/// sequences with a known length (arrays, byte sequences) through serialize_tuple
+	pub seq_as_tuple: bool,
 	pub rng: RefCell<Rng>,
 }
 
@@ -75,6 +77,7 @@ impl Pres {
 			enum_as_str: false,
 			bytes_as_seq: false,
 			duration_as: 0,
+			seq_as_tuple: false,
 			rng: RefCell::new(Rng::new(0)),
 		}
 	}
@@ -93,12 +96,13 @@ impl Pres {
 			enum_as_str: rng.chance(1, 4),
 			bytes_as_seq: false,
 			duration_as: rng.below(4) as u8,
+			seq_as_tuple: rng.chance(1, 5),
 			rng: RefCell::new(rng.fork()),
 		}
 	}
 	pub fn describe(&self) -> String {
 		format!(
-			"union={:?} record={:?} order={:?} omit_null={}/8 len_hint={} struct_name_selects={} enum_as_str={} bytes_as_seq={} duration_as={}",
+			"union={:?} record={:?} order={:?} omit_null={}/8 len_hint={} struct_name_selects={} enum_as_str={} bytes_as_seq={} duration_as={} seq_as_tuple={}",
 			self.union_sel,
 			self.record_as,
 			self.field_order,
@@ -107,7 +111,8 @@ impl Pres {
 			self.struct_name_selects_branch,
 			self.enum_as_str,
 			self.bytes_as_seq,
-			self.duration_as
+			self.duration_as,
+			self.seq_as_tuple
 		)
 	}
 }
@@ -301,7 +306,13 @@ impl<'a> Serialize for Present<'a> {
 			(Eff::Float, Val::Float(b)) => ser.serialize_f32(f32::from_bits(*b)),
 			(Eff::Double, Val::Double(b)) => ser.serialize_f64(f64::from_bits(*b)),
 			(Eff::Bytes, Val::Bytes(b)) | (Eff::Fixed(_), Val::Fixed(b)) => {
-				if self.p.bytes_as_seq {
+				if self.p.bytes_as_seq && self.p.seq_as_tuple {
+					let mut t = ser.serialize_tuple(b.len())?;
+					for x in b {
+						t.serialize_element(x)?;
+					}
+					t.end()
+				} else if self.p.bytes_as_seq {
 					let hint = if self.p.exact_len_hint { Some(b.len()) } else { None };
 					let mut sq = ser.serialize_seq(hint)?;
 					for x in b {
@@ -314,6 +325,7 @@ impl<'a> Serialize for Present<'a> {
 			}
 			(Eff::String, Val::Str(st)) => ser.serialize_str(st),
 			(Eff::Enum, Val::Enum(i)) => match &self.s.node(self.id).kind {
+				Kind::Enum { symbols, .. } if *i >= symbols.len() => Untyped(self.v, self.p).serialize(ser),
 				Kind::Enum { name, symbols } => {
 					if self.p.enum_as_str {
 						ser.serialize_str(&symbols[*i])
@@ -323,6 +335,13 @@ impl<'a> Serialize for Present<'a> {
 				}
 				_ => Err(mismatch()),
 			},
+			(Eff::Array(item), Val::Array(xs)) if self.p.seq_as_tuple => {
+				let mut t = ser.serialize_tuple(xs.len())?;
+				for x in xs {
+					t.serialize_element(&self.at(item, x))?;
+				}
+				t.end()
+			}
 			(Eff::Array(item), Val::Array(xs)) => {
 				let hint = if self.p.exact_len_hint { Some(xs.len()) } else { None };
 				let mut sq = ser.serialize_seq(hint)?;
@@ -339,7 +358,7 @@ impl<'a> Serialize for Present<'a> {
 				}
 				m.end()
 			}
-			(Eff::Union(branches), Val::Union(i, inner)) => {
+			(Eff::Union(branches), Val::Union(i, inner)) if *i < branches.len() => {
 				let b = branches[*i];
 				let child = self.at(b, inner);
 				let by_type = match self.p.union_sel {
@@ -372,7 +391,10 @@ impl<'a> Serialize for Present<'a> {
 					ser.serialize_newtype_variant("Union", *i as u32, intern(&name), &child)
 				}
 			}
-			(Eff::Record, Val::Record(vals)) => match &self.s.node(self.id).kind {
+			(Eff::Record, Val::Record(vals))
+				if matches!(&self.s.node(self.id).kind, Kind::Record { fields, .. } if fields.len() == vals.len()) =>
+			{
+				match &self.s.node(self.id).kind {
 				Kind::Record { name, fields } => {
 					let mut order: Vec<usize> = (0..fields.len()).collect();
 					match self.p.field_order {
@@ -416,7 +438,8 @@ impl<'a> Serialize for Present<'a> {
 					}
 				}
 				_ => Err(mismatch()),
-			},
+				}
+			}
 			(Eff::DecimalBytes { scale }, Val::Decimal(u)) | (Eff::DecimalFixed { scale, .. }, Val::Decimal(u)) => {
 				ser.serialize_str(&decimal_to_string(*u, scale))
 			}
@@ -439,7 +462,81 @@ impl<'a> Serialize for Present<'a> {
 				}
 				_ => DurationMap(*a, *b, *c).serialize(ser),
 			},
-			_ => Err(mismatch()),
+			// the value does not fit the node: show it to the serializer in its own natural shape, so
+			// that the mismatch is detected (or not) by the code under test
+			_ => {
+				let _ = mismatch;
+				Untyped(self.v, self.p).serialize(ser)
+			}
+		}
+	}
+}
+
+/// a value presented without any knowledge of the schema
+pub struct Untyped<'a>(pub &'a Val, pub &'a Pres);
+impl<'a> Serialize for Untyped<'a> {
+	fn serialize<S: Serializer>(&self, ser: S) -> Result<S::Ok, S::Error> {
+		let p = self.1;
+		match self.0 {
+			Val::Null => ser.serialize_unit(),
+			Val::Bool(b) => ser.serialize_bool(*b),
+			Val::Int(i) => ser.serialize_i32(*i),
+			Val::Long(i) => ser.serialize_i64(*i),
+			Val::Float(b) => ser.serialize_f32(f32::from_bits(*b)),
+			Val::Double(b) => ser.serialize_f64(f64::from_bits(*b)),
+			Val::Bytes(b) | Val::Fixed(b) => ser.serialize_bytes(b),
+			Val::Str(x) => ser.serialize_str(x),
+			Val::Enum(i) => ser.serialize_u32(*i as u32),
+			Val::Array(xs) => {
+				if p.seq_as_tuple {
+					let mut t = ser.serialize_tuple(xs.len())?;
+					for x in xs {
+						t.serialize_element(&Untyped(x, p))?;
+					}
+					t.end()
+				} else {
+					let mut sq = ser.serialize_seq(Some(xs.len()))?;
+					for x in xs {
+						sq.serialize_element(&Untyped(x, p))?;
+					}
+					sq.end()
+				}
+			}
+			Val::Map(es) => {
+				let mut m = ser.serialize_map(Some(es.len()))?;
+				for (k, x) in es {
+					m.serialize_entry(k, &Untyped(x, p))?;
+				}
+				m.end()
+			}
+			Val::Union(_, x) => Untyped(x, p).serialize(ser),
+			Val::Record(xs) => {
+				let mut st = ser.serialize_struct("Anon", xs.len())?;
+				for (i, x) in xs.iter().enumerate() {
+					st.serialize_field(intern(&format!("f{i}")), &Untyped(x, p))?;
+				}
+				st.end()
+			}
+			Val::Decimal(u) => ser.serialize_str(&decimal_to_string(*u, 0)),
+			Val::BigDecimal(u, sc) => ser.serialize_str(&decimal_to_string(*u, *sc)),
+			Val::Duration(a, b, c) => match p.duration_as {
+				0 => DurationStruct(*a, *b, *c).serialize(ser),
+				2 => {
+					let mut raw = Vec::with_capacity(12);
+					raw.extend_from_slice(&a.to_le_bytes());
+					raw.extend_from_slice(&b.to_le_bytes());
+					raw.extend_from_slice(&c.to_le_bytes());
+					ser.serialize_bytes(&raw)
+				}
+				3 => DurationMap(*a, *b, *c).serialize(ser),
+				_ => {
+					let mut t = ser.serialize_tuple(3)?;
+					t.serialize_element(a)?;
+					t.serialize_element(b)?;
+					t.serialize_element(c)?;
+					t.end()
+				}
+			},
 		}
 	}
 }
